@@ -186,6 +186,14 @@ func (c *monC04) After(m *Machine, s *Step) *Violation {
 		c.resync(pid, post)
 		return nil
 	}
+	if r.Fired != "" && (r.Rec.HandlerErr != nil || r.Panic != nil) {
+		// the failed backend call surfaced as an error: where it hit decides what was
+		// written, the model follows storage. (A request that *reports* a clean outcome
+		// is judged by the ordinary rules whatever failed inside it.)
+		m.flag("fault-surfaced")
+		c.resync(pid, post)
+		return nil
+	}
 	t0, t1 := r.T0.UTC(), r.T1.UTC()
 	lockedBefore0, lockedBefore1 := lm.lockedUntil.After(t0), lm.lockedUntil.After(t1)
 	if lockedBefore0 != lockedBefore1 {
@@ -301,6 +309,8 @@ var profC04 = profile{
 	must: []string{"auth", "lock"}, may: []string{"otp", "logout"},
 	setups: []string{"totp", "sms", "recovery"}, kinds: kindsC04, minOps: 16, maxOps: 40,
 	accts: [2]int{1, 2}, browsers: [2]int{1, 2}, middlewares: []string{""},
+	// the counter is kept by storage writes: a login step whose write fails must not be reported as a clean outcome
+	faultPct: 8, faultOps: []string{"login", "otplogin", "totpvalidate", "smsvalidate"},
 	tweak: func(t *rapid.T, c *harness.Config) {
 		c.LockAfter = rapid.IntRange(1, 6).Draw(t, "lockafter4")
 		c.LockWindowS = pick(t, "win", 20, 60, 300, 3600, 86400)
@@ -352,6 +362,7 @@ func TestC04(t *testing.T) {
 		cfg := genConfig(rt, p)
 		e := genEnv{cfg: cfg, nAcct: len(cfg.Accounts), nBrows: cfg.Browsers}
 		ops := genOps(rt, p, e)
+		decorateFaults(rt, p, ops)
 		gaps := c04Gaps(cfg)
 		for i := range ops {
 			if ops[i].K == "advance" {
